@@ -142,11 +142,9 @@ type world struct {
 	helpers sync.WaitGroup // helper goroutines started by the harness inside the bubble
 }
 
-func newWorld(cfg map[string]any) (*world, error) {
-	w := &world{clients: map[int]*client{}, sidKey: map[wamp.ID]int{}, start: time.Now(), quit: make(chan struct{})}
-	w.realm = strOf(cfg, "uri", "r")
+func realmConfig(w *world, cfg map[string]any) *router.RealmConfig {
 	rc := &router.RealmConfig{
-		URI:               wamp.URI(w.realm),
+		URI:               wamp.URI(strOf(cfg, "uri", "r1")),
 		StrictURI:         boolOf(cfg, "strict"),
 		AllowDisclose:     boolOf(cfg, "disclose"),
 		Authenticators:    []auth.Authenticator{harnessAuth{}},
@@ -179,7 +177,25 @@ func newWorld(cfg map[string]any) (*world, error) {
 			})
 		}
 	}
-	r, err := router.NewRouter(&router.Config{RealmConfigs: []*router.RealmConfig{rc}}, log.New(io.Discard, "", 0))
+	return rc
+}
+
+// newWorld starts a router with one realm (cfg is an object) or several (cfg
+// is {"realms":[...]}).
+func newWorld(cfg map[string]any) (*world, error) {
+	w := &world{clients: map[int]*client{}, sidKey: map[wamp.ID]int{}, start: time.Now(), quit: make(chan struct{})}
+	var rcs []*router.RealmConfig
+	if list, ok := cfg["realms"].([]any); ok {
+		for _, x := range list {
+			if m, ok := x.(map[string]any); ok {
+				rcs = append(rcs, realmConfig(w, m))
+			}
+		}
+	} else {
+		rcs = append(rcs, realmConfig(w, cfg))
+	}
+	w.realm = string(rcs[0].URI)
+	r, err := router.NewRouter(&router.Config{RealmConfigs: rcs}, log.New(io.Discard, "", 0))
 	if err != nil {
 		return nil, err
 	}
@@ -310,6 +326,7 @@ func (w *world) join(op map[string]any) string {
 	if !local {
 		rs = remotePeer{s}
 	}
+	realm := strOf(op, "realm", w.realm)
 	hello, _ := op["hello"].(map[string]any)
 	hd := w.dict(hello)
 	if hd == nil {
@@ -319,7 +336,7 @@ func (w *world) join(op map[string]any) string {
 	go func() {
 		defer w.helpers.Done()
 		select {
-		case c.Send() <- &wamp.Hello{Realm: wamp.URI(w.realm), Details: hd}:
+		case c.Send() <- &wamp.Hello{Realm: wamp.URI(realm), Details: hd}:
 		case <-w.quit:
 		}
 	}()
@@ -329,7 +346,7 @@ func (w *world) join(op map[string]any) string {
 	select {
 	case err := <-errc:
 		if err != nil {
-			return "attach: " + err.Error()
+			return "refused"
 		}
 	default:
 		return "attach did not return"
@@ -367,6 +384,7 @@ func (w *world) apply(op map[string]any) (out map[int][]wamp.Message, closed []i
 		l, _ := op["m"].([]any)
 		msg := w.toMsg(l)
 		sent := make(chan bool, 1)
+		withdraw := make(chan struct{})
 		w.helpers.Add(1)
 		go func() {
 			defer w.helpers.Done()
@@ -374,7 +392,8 @@ func (w *world) apply(op map[string]any) (out map[int][]wamp.Message, closed []i
 			select {
 			case c.peer.Send() <- msg:
 				sent <- true
-			case <-w.quit: // handler gone or busy for good
+			case <-withdraw: // handler gone or busy: the client gives up sending
+			case <-w.quit:
 			}
 		}()
 		synctest.Wait()
@@ -382,6 +401,7 @@ func (w *world) apply(op map[string]any) (out map[int][]wamp.Message, closed []i
 		case <-sent:
 		default:
 			note = "undelivered"
+			close(withdraw)
 		}
 	case "drop":
 		c := w.clients[int(num(op["s"]))]
@@ -399,6 +419,19 @@ func (w *world) apply(op map[string]any) (out map[int][]wamp.Message, closed []i
 		}
 	case "tick":
 		time.Sleep(time.Duration(num(op["ms"])) * time.Millisecond)
+	case "close":
+		w.helpers.Add(1)
+		go func() { defer w.helpers.Done(); w.r.Close() }()
+	case "removeRealm":
+		name := strOf(op, "realm", "")
+		w.helpers.Add(1)
+		go func() { defer w.helpers.Done(); w.r.RemoveRealm(wamp.URI(name)) }()
+	case "addRealm":
+		if m, ok := op["cfg"].(map[string]any); ok {
+			if err := w.r.AddRealm(realmConfig(w, m)); err != nil {
+				note = "refused"
+			}
+		}
 	case "rnd":
 	}
 	synctest.Wait()
